@@ -40,18 +40,18 @@ type findLine struct {
 
 var codeNames = map[int]string{9001: "V-Unsigned32", 9010: "V-OctetString", 9018: "V-Grouped", 9050: "V-Grouped2", 9008: "V-Time"}
 
-func buildForest(ns []treeNode, prefix []int, pos map[*diam.AVP][]int) []*diam.AVP {
+func buildForest(ns []treeNode, prefix []int, pos map[*diam.AVP][]int, shift int) []*diam.AVP {
 	var out []*diam.AVP
 	for i, n := range ns {
 		p := append(append([]int(nil), prefix...), i+1)
 		var a *diam.AVP
 		if n.Grouped {
-			g := &diam.GroupedAVP{AVP: buildForest(n.Kids, p, pos)}
-			a = diam.NewAVP(uint32(n.Code), 0x40, 0, g)
+			g := &diam.GroupedAVP{AVP: buildForest(n.Kids, p, pos, shift)}
+			a = diam.NewAVP(uint32(n.Code+shift), 0x40, 0, g)
 		} else if n.Code == 9010 {
-			a = diam.NewAVP(uint32(n.Code), 0x40, 0, datatype.OctetString("x"))
+			a = diam.NewAVP(uint32(n.Code+shift), 0x40, 0, datatype.OctetString("x"))
 		} else {
-			a = diam.NewAVP(uint32(n.Code), 0x40, 0, datatype.Unsigned32(7))
+			a = diam.NewAVP(uint32(n.Code+shift), 0x40, 0, datatype.Unsigned32(7))
 		}
 		pos[a] = p
 		out = append(out, a)
@@ -69,12 +69,12 @@ func fixTree(ns []treeNode) []treeNode {
 	return ns
 }
 
-func runFind(id int, c *findCase, dp *dict.Parser) findLine {
+func runFind(id int, c *findCase, dp *dict.Parser, shift int) findLine {
 	c.Tree = fixTree(c.Tree)
 	l := findLine{Ev: "find", ID: id, Tree: c.Tree, Q: []findQuery{}}
 	pos := map[*diam.AVP][]int{}
 	m := diam.NewMessage(abs.VCmd, 0x80, abs.VApp, 1, 2, dp)
-	for _, a := range buildForest(c.Tree, nil, pos) {
+	for _, a := range buildForest(c.Tree, nil, pos, shift) {
 		m.AddAVP(a)
 	}
 	where := func(as []*diam.AVP) [][]int {
@@ -92,7 +92,7 @@ func runFind(id int, c *findCase, dp *dict.Parser) findLine {
 		if byname {
 			return codeNames[code]
 		}
-		return uint32(code)
+		return uint32(code + shift)
 	}
 	codes := []int{9001, 9010, 9018, 9050, 9008}
 	for _, code := range codes {
@@ -180,6 +180,10 @@ func Find(a Args) error {
 	if err != nil {
 		return err
 	}
+	vp2, err := abs.NewVParserShift(a.Repo, 300)
+	if err != nil {
+		return err
+	}
 	id := 0
 	if a.Cases != "" {
 		err = ReadLines(a.Cases, func(line []byte) error {
@@ -188,7 +192,11 @@ func Find(a Args) error {
 				return err
 			}
 			id++
-			out.Emit(runFind(id, &c, vp))
+			out.Emit(runFind(id, &c, vp, 0))
+			if id%4 == 0 {
+				// the same names under a dictionary that maps them to other codes
+				out.Emit(runFind(id, &c, vp2, 300))
+			}
 			return nil
 		})
 		if err != nil {
@@ -200,7 +208,8 @@ func Find(a Args) error {
 		budget := 10 + r.Intn(190)
 		c := findCase{Tree: randTree(r, 6, &budget)}
 		id++
-		out.Emit(runFind(id, &c, vp))
+		out.Emit(runFind(id, &c, vp, 0))
+		out.Emit(runFind(id, &c, vp2, 300))
 	}
 	return nil
 }
